@@ -332,3 +332,28 @@ PROPS["C15"] = {
         "strings are valid UTF-8 in the main generator; the non-UTF-8 case is a recorded finding re-checked by a probe",
     ],
 }
+
+PROPS["C19"] = {
+    "pkg": "c19", "level": "exploration",
+    "jobs": {
+        "quick": [
+            {"name": "probes", "kind": "plain", "run": "^TestProbe"},
+            {"name": "pipeline", "run": "^TestEventsThroughPipeline$", "checks": 1600, "shards": 8},
+            {"name": "gated", "run": "^TestWaitForEventsGated$", "checks": 320, "shards": 8},
+            {"name": "forwarder", "run": "^TestEventsForwarderMode$", "checks": 800, "shards": 4},
+        ],
+        "thorough": [
+            {"name": "probes", "kind": "plain", "run": "^TestProbe"},
+            {"name": "pipeline", "run": "^TestEventsThroughPipeline$", "checks": 160000, "shards": 8, "timeout": 1700},
+            {"name": "pipeline-race", "run": "^TestEventsThroughPipeline$", "checks": 8000, "shards": 4, "race": True, "timeout": 1700},
+            {"name": "gated", "run": "^TestWaitForEventsGated$", "checks": 16000, "shards": 8, "timeout": 1700},
+            {"name": "forwarder", "run": "^TestEventsForwarderMode$", "checks": 80000, "shards": 4, "timeout": 1700},
+        ],
+    },
+    "assumptions": [
+        "an event without d: gets the wall-clock second of receipt: accepted within [start-1, end+1] of the case",
+        "events posted to /v2/event carry a non-zero time (the only documented client, gostatsd's forwarder, always sets it)",
+        "a premature WaitForEvents return is detected by observing a return within 15 ms while the backends are still gated: a correct implementation blocks, so the wait cannot produce a false alarm",
+        "the expected tag set is event tags, then cloud tags, then static tags, compared as a set",
+    ],
+}
